@@ -448,7 +448,36 @@ func fineDisconnectWhileDelivering(seed uint64) []lib.Case {
 	return []lib.Case{cr.finish("deliver-vs-disconnect#"+strconv.FormatUint(seed, 10), seed, nil, nil)}
 }
 
+// TOUCH restarts the hold with the consumer's NEGOTIATED msg_timeout (not the daemon
+// default): a fixed sequence, no parking.  One consumer negotiated more than the default,
+// one less; each TOUCHes, then scans with clocks between the two candidates must leave the
+// first message held and take the second away.
+func fineTouchThenScan(seed uint64) []lib.Case {
+	cr := newFineCase(seed, 10)
+	cr.opCreateTopic(1)
+	cr.opCreateChan(1, 1)
+	cr.opCreateChan(1, 2)
+	kx := cr.opConnectTmo(xlongTimeoutMs, false)
+	cr.opSub(kx, 1, 1)
+	cr.opRdy(kx, 1)
+	ks := cr.opConnectTmo(shortTimeoutMs, false)
+	cr.opSub(ks, 1, 2)
+	cr.opRdy(ks, 1)
+	cr.opPub(1, 1, false, false)
+	for _, sc := range []*shClient{kx, ks} {
+		if tg, id, ok := cr.someHeld(sc); ok {
+			cr.answer(sc, "TOUCH", tg, id, 0)
+		}
+	}
+	cr.opScan(1, 1, true, scanMid)   // +90 s: default (60 s) has passed, negotiated (120 s) has not
+	cr.opScan(1, 2, true, scanShort) // +20 s: negotiated (5 s) has passed, default (60 s) has not
+	cr.opScan(1, 1, true, scanAll)
+	cr.opScan(1, 2, true, scanAll)
+	return []lib.Case{cr.finish("touch-then-scan#"+strconv.FormatUint(seed, 10), seed, nil, nil)}
+}
+
 var fineScenarios = map[string]func(uint64) []lib.Case{
+	"touch-then-scan":       fineTouchThenScan,
 	"deliver-vs-disconnect": fineDisconnectWhileDelivering,
 	"exit-vs-timeout-scan":  func(seed uint64) []lib.Case { return fineExitWhileScanning(seed, true) },
 	"exit-vs-deferred-scan": func(seed uint64) []lib.Case { return fineExitWhileScanning(seed, false) },
@@ -466,6 +495,7 @@ var fineByProfile = map[string][]string{
 	"c08": {"deliver-vs-empty", "sub-vs-topic-delete", "fin-vs-empty"},
 	"c03": {"fin-vs-empty", "deliver-vs-empty"},
 	"c13": {"fin-vs-empty", "deliver-vs-empty"},
-	"c02": {"deliver-vs-disconnect"},
+	"c02": {"deliver-vs-disconnect", "touch-then-scan"},
+	"c04": {"touch-then-scan"},
 	"c05": {"exit-vs-deliver", "exit-vs-req", "exit-vs-timeout-scan", "exit-vs-deferred-scan"},
 }
